@@ -494,6 +494,11 @@ func (t *RaftTransaction) ListPage(ctx context.Context, prefix string, after str
 	seekPrefix := []byte(fullAfter)
 	if after == "" {
 		seekPrefix = prefixBytes
+	} else if !bytes.HasPrefix(seekPrefix, prefixBytes) {
+		// See listPageInner: filepath.Join cleans the path, so an after
+		// value such as "." or "../x" yields a seek position outside of
+		// prefix and the loop below would skip every entry.
+		seekPrefix = prefixBytes
 	}
 
 	// Assume the bucket exists and has keys.
